@@ -48,6 +48,8 @@ def plan(tier, seed):
         specs.append({"name": f"tcp-negotiate-{i}", "kind": "online", "security": "negotiate", "n": 30 if q else 300})
     for i in range(4):
         specs.append({"name": f"mem-{i}", "kind": "online", "security": "scripted", "n": 300 if q else 2500})
+    specs.append({"name": "concurrent-mem", "kind": "concurrent", "security": "scripted", "n": 40 if q else 600})
+    specs.append({"name": "concurrent-ntlm", "kind": "concurrent", "security": "ntlm", "n": 8 if q else 80})
     return specs
 
 
@@ -74,6 +76,11 @@ def run_online(spec, rec: Recorder):
         keys[(h, a)] = (uuid.UUID(int=rng.getrandbits(128)), online.root_key(rng, h, a))
     root_keys = {rkid: rk for rkid, rk in keys.values()}
     cfg = DCConfig(root_keys, next(iter(root_keys)), security=security)
+    # the dynamic endpoint the mapper announces: ports with 1..5 digits (the bind_ack's secondary address string, and so its
+    # padding, depends on the number of digits)
+    idx = int(spec["name"].rsplit("-", 1)[1]) if spec["name"].rsplit("-", 1)[1].isdigit() else 0
+    cfg.isd_port = [49668, 5001, 636, 88, 9, 65535, 1024, 10000][idx % 8]
+    rec.seen("isd_port_digits", len(str(cfg.isd_port)))
     core = DCCore(cfg)
     dc = fe.TcpDC(core) if security != "scripted" else fe.MemoryDC(core)
     dns_ = ScriptedDNS()
@@ -220,8 +227,79 @@ def run_online(spec, rec: Recorder):
             dc.close()
 
 
+def run_concurrent(spec, rec: Recorder):
+    """Several async calls in flight at once against one DC (independent callers: each has its own cache): blobs of the same
+    (root key, SID, L0) at different positions, blobs of other SIDs / L0s, and protect calls in between.  Each call must
+    end as it does alone; the DC must have been asked for a key that covers each blob's position under that blob's SD."""
+    import dpapi_ng
+
+    rng = common.rng_for(ID, spec)
+    security = spec["security"]
+    rkid = uuid.UUID(int=rng.getrandbits(128))
+    rk = online.root_key(rng, rng.choice(common.HASHES), "DH")
+    cfg = DCConfig({rkid: rk}, rkid, security=security, now=(362, 31, 31))
+    core = DCCore(cfg)
+    dc = fe.TcpDC(core) if security != "scripted" else fe.MemoryDC(core)
+    loop = asyncio.new_event_loop()
+    asyncio.set_event_loop(loop)
+    kw = dict(server="dc.c17.test", username=fe.NTLM_USER, password=fe.NTLM_PASS, auth_protocol="ntlm")
+    try:
+        with dc.installed():
+            for rnd in range(spec["n"]):
+                k = rng.choice([2, 3, 4, 6])
+                sid_main = online.gen_sid(rng, n=3)
+                l0_main = rng.choice([361, 362])
+                calls, expect = [], []
+                for j in range(k):
+                    same = rng.random() < 0.75
+                    sid = sid_main if same else online.gen_sid(rng, n=2 + j)
+                    l0 = l0_main if rng.random() < 0.85 else 360
+                    pos = (rng.randrange(32), rng.randrange(32))
+                    pt = b"conc-%d-%d-" % (rnd, j) + rng.randbytes(5)
+                    if rng.random() < 0.85:
+                        blob = online.ref_blob(rng, rkid, rk, sid, (l0,) + pos, "nonce", pt, domain=cfg.domain)
+                        calls.append(lambda blob=blob: dpapi_ng.async_ncrypt_unprotect_secret(blob, cache=dpapi_ng.KeyCache(), **kw))
+                        expect.append(("U", pt, sid, l0, pos))
+                    else:
+                        calls.append(lambda pt=pt, sid=sid: dpapi_ng.async_ncrypt_protect_secret(pt, sid, cache=dpapi_ng.KeyCache(), **kw))
+                        expect.append(("P", pt, sid, None, None))
+                wit = {"kind": "concurrent", "shard": spec["name"], "round": rnd, "calls": [(e[0], e[2], e[3], e[4]) for e in expect], "security": security}
+                since = len(core.getkeys)
+
+                async def batch():
+                    return await asyncio.gather(*[c() for c in calls], return_exceptions=True)
+
+                try:
+                    with mon.NET.guard(allow_loopback=True):
+                        res = loop.run_until_complete(asyncio.wait_for(batch(), 120))
+                except asyncio.TimeoutError:
+                    rec.inconclusive_because(f"watchdog: concurrent batch {wit}")
+                    continue
+                asked = core.getkeys[since:]
+                for (kind, pt, sid, l0, pos), r in zip(expect, res):
+                    rec.count("concurrent_calls_checked")
+                    if isinstance(r, BaseException):
+                        rec.violation("concurrent-call-failed", f"{kind} {sid} {l0} {pos} raised {type(r).__name__}: {r} while {k} calls were in flight (alone it succeeds)", wit)
+                    elif kind == "U" and r != pt:
+                        rec.violation("concurrent-wrong-result", f"unprotect of the blob at {(l0,) + pos} returned other bytes while {k} calls were in flight", wit)
+                    elif kind == "P" and cms.reference_unprotect(r, {rkid: rk}) != pt:
+                        rec.violation("concurrent-wrong-result", f"protect while {k} calls were in flight: the reference implementation cannot decrypt the blob", wit)
+                rec.count("getkey_decoded_at_dc", len(asked))
+                rec.case(("concurrent", spec["name"], rnd), nontrivial=True)
+            rec.sample({"kind": "concurrent async calls with independent caches", "security": security, "rounds": spec["n"], "last": wit})
+        if security != "scripted" and dc.errors:
+            rec.inconclusive_because(f"reference DC thread error: {dc.errors[0][-300:]}")
+    finally:
+        loop.close()
+        if hasattr(dc, "close"):
+            dc.close()
+
+
 def run_shard(spec, rec: Recorder):
     if not common.calibrate(rec, "crypto", "gkdi", "sd", "cms", "rpc", "epm"):
+        return
+    if spec["kind"] == "concurrent":
+        run_concurrent(spec, rec)
         return
     run_online(spec, rec)
 
